@@ -814,8 +814,8 @@ def emits_comment_first(idx, fi: FuncInfo, helper: str, depth: int = 0) -> Tuple
             for n in ast.walk(v):
                 if isinstance(n, ast.Name) and n.id != model:
                     for st in walk_no_nested(fi.node):
-                        if isinstance(st, ast.Assign) and len(st.targets) == 1 and norm(st.targets[0]) == n.id and isinstance(st.value, ast.Call):
-                            cands.append(st.value)
+                        if isinstance(st, ast.Assign) and len(st.targets) == 1 and norm(st.targets[0]) == n.id:
+                            cands += [c_ for c_ in ast.walk(st.value) if isinstance(c_, ast.Call)]       # also `f(model) if key else ''`
             for c in cands:
                 passes_model = any(norm(a) == model for a in c.args) or any(norm(k.value) == model for k in c.keywords)
                 if not passes_model:
